@@ -21,8 +21,13 @@ THEOREMS = ['PV.C09.' + t for t in [
   'related_iff_overlap', 'overlap_spec', 'upblk_writes_iff', 'upblk_writes_iff_rel', 'multi_writer_iff', 'no_writer_iff',
   'loop_iff', 'floodfill_cycle', 'floodfill_cycle_any_order', 'hasCycle_order_free', 'loop_edge_set', 'self_loop', 'dup_is_no_loop', 'verdict_iff', 'verdict_class',
   'legal_accepted', 'order_invariant_perm', 'order_invariant_flip', 'op_table', 'op_errors_iff', 'port_upblk_table',
-  'port_upblk_iff', 'port_net_table', 'port_walk_spec', 'wf_checked']]
+  'port_upblk_iff', 'port_net_table', 'port_walk_spec', 'helpers_reached', 'helpers_flatten_writes', 'helpers_verdict',
+  'helpers_wf', 'wf_checked']]
 TRUSTED = [
+  '@s.func helpers: the model folds the reads/writes of every function a block reaches into the block (HDesign.flatten; reach closure proved: '
+  'helpers_reached, helpers_flatten_writes) and raises InvalidFuncCallError on a call cycle reachable from a block; the harness oracle computes the '
+  'call-graph closure on its own. pymtl3 applies no operator rule inside helper functions (an `=` or `<<=` there is accepted; observed, not generated), '
+  'and update_ff blocks calling writing helpers are not generated',
   'Model/Nets.lean `elaborate`: the stages of Component.elaborate() written from ComponentLevel2/3 (after fix: cb61d3c, 87007f6, be47852)',
   'proved equivalences: related<->shared bit, _check_upblk_writes<->two block drivers of a bit, writer resolution<->two/no outside-driven members '
   '(least-fixed-point spec), the pred-based flood-fill stack machine<->cycle in the merged connection graph for every iteration order, verdict<->defect, '
@@ -37,8 +42,8 @@ ASSUMPTIONS = [
   'quirk kept: the same pair connected twice (either orientation) is merged by the adjacency sets and is not a loop (PV.C09.dup_is_no_loop)',
   'multi-defect designs are compared on accepted/rejected only',
 ]
-RULE = ('legal designs (C08 generator); exactly one injected defect out of 38 kinds (two blocks / block vs net / field vs parent / overlapping slices / '
-        'slice vs whole / two constants / constant vs block / second driver on a deep part of a struct that one block writes whole and overrides two levels down / headless net / self connection / cycle of 3+ / each port rule Type 1-9 and loop-back / '
+RULE = ('legal designs (C08 generator); exactly one injected defect out of 43 kinds (two blocks / block vs net / field vs parent / overlapping slices / '
+        'slice vs whole / two constants / constant vs block / two blocks reaching one signal-writing @s.func helper (directly or through different intermediate helpers) / helper write vs direct write / helper write vs net / call cycle between helpers / second driver on a deep part of a struct that one block writes whole and overrides two levels down / headless net / self connection / cycle of 3+ / each port rule Type 1-9 and loop-back / '
         'wrong operator (=, @=, <<=, for-loop target) in update and update_ff, also as a second write to an object the same block already wrote legally, in either statement order / <<= on slice or field) at a random hierarchy position, plus the duplicated-connection quirk; 2-3 defects; '
         'exhaustive tables; each under K statement orders with side flips; case = (design, order); non-trivial = design has a defect or at least two '
         'user nets; distinct = canonical JSON')
@@ -68,16 +73,32 @@ def model_verdict(m):
   types = sorted({e.split(':')[1] for e in m['errs'] if ':' in e})
   return classes, types
 
-def run_design(ck, d, variants, stream, expect=None, exact=True, extra_instances=0):
+def model_lines(d, variants):
+  return [d.model_line(conn_order=d.conn_order_of(var), flips=var['flips'])[1] for var in variants]
+
+class Pending:
+  """designs waiting for the model: one driver process per chunk instead of one per design"""
+  def __init__(self, ck, limit=150):
+    self.ck, self.limit, self.items = ck, limit, []
+  def add(self, d, variants, stream, **kw):
+    self.items.append((d, variants, stream, kw))
+    if len(self.items) >= self.limit: self.flush()
+  def flush(self):
+    if not self.items: return
+    lines, spans = [], []
+    for (d, variants, stream, kw) in self.items:
+      ls = model_lines(d, variants); spans.append((len(lines), len(lines) + len(ls))); lines += ls
+    reps = self.ck.drv('nets').batch(lines)
+    for (d, variants, stream, kw), (a, b) in zip(self.items, spans):
+      run_design(self.ck, d, variants, stream, reps=reps[a:b], **kw)
+    self.items = []
+
+def run_design(ck, d, variants, stream, expect=None, exact=True, extra_instances=0, reps=None):
   """expect: None = take the oracle's word; (cls, typ) = class the injected defect calls for ('ok' = accepted).
   exact=False: compare accepted/rejected only."""
   dj = g.design_to_json(d)
-  lines = []
-  objs = None
-  for var in variants:
-    objs, line = d.model_line(conn_order=d.conn_order_of(var), flips=var['flips'])
-    lines.append(line)
-  reps = ck.drv('nets').batch(lines)
+  objs = d.all_objects()
+  if reps is None: reps = ck.drv('nets').batch(model_lines(d, variants))
   parsed = [parse_reply(r) for r in reps]
   for vi in range(1, len(reps)):
     if parsed[vi] != parsed[0]:
@@ -154,13 +175,14 @@ def run(ck):
   rng = ck.rng
   quick = ck.tier == 'quick'
   K = 3 if quick else 6
+  pend = Pending(ck)
   # ---- legal designs
   for i in range(150 if quick else 1000):
     d1 = rng.random() < 0.3
     d = g.gen_legal(rng, d1=d1)
-    run_design(ck, d, variants_of(d, rng, K), 'legal', extra_instances=2 if d1 else 0)
+    pend.add(d, variants_of(d, rng, K), 'legal', extra_instances=2 if d1 else 0)
   # ---- exactly one defect
-  per_kind = 10 if quick else 100
+  per_kind = 8 if quick else 100
   for kind in g.INJECTORS:
     done = tries = 0
     while done < per_kind and tries < 30 * per_kind:
@@ -169,7 +191,7 @@ def run(ck):
       r = g.inject(d, rng, kind)
       if r is None: continue
       done += 1
-      run_design(ck, d, variants_of(d, rng, K), 'one-defect', expect=r)
+      pend.add(d, variants_of(d, rng, K), 'one-defect', expect=r)
     if done < per_kind: raise InfraError(f'C09: could not place defect {kind}')
   # ---- several defects: accepted / rejected only
   kinds = [k for k in g.INJECTORS if k != 'dup']
@@ -179,7 +201,7 @@ def run(ck):
     for kind in rng.sample(kinds, rng.randint(2, 3)):
       if g.inject(d, rng, kind) is not None: n += 1
     if n < 2: continue
-    run_design(ck, d, variants_of(d, rng, 2 if quick else 3), 'multi-defect', exact=False)
+    pend.add(d, variants_of(d, rng, 2 if quick else 3), 'multi-defect', exact=False)
   # ---- exhaustive small tables
   tables = [('table-port-nets', g.table_port_nets(rng)), ('table-port-upblk', g.table_port_upblk(rng)), ('table-ops', g.table_ops(rng))]
   pairs = g.table_write_pairs(rng, ('b', 4)) + g.table_write_pairs(rng, ('s', 'PB'))
@@ -187,7 +209,8 @@ def run(ck):
   tables.append(('table-write-pairs', pairs))
   for name, ds in tables:
     for d in ds:
-      run_design(ck, d, variants_of(d, rng, 2), name)
+      pend.add(d, variants_of(d, rng, 2), name)
+  pend.flush()
   ck.extra_cov['exhaustive'] = not quick
   ck.extra_cov['exhaustive_tables'] = ('port directions over nets: 11 host relations x 3 x 3 kinds (+ loop-back at the parent); ports in update blocks: 5 host pairs x 3 kinds x '
     'read/write; operators: 2 block kinds x 4 operators (=, @=, <<=, for target) x whole/slice/field, and every pair (first write, second write to the same object) of them; pairs of written objects of one Bits4 and one PB signal x '
